@@ -278,7 +278,7 @@ PROPS["C02"] = dict(
 
 PROPS["C06"] = dict(
     gen=[("tables", "ServlinVerif/Gen/CodeTables.lean")],
-    suites=["c06", "c07"],
+    suites=["c06", "c07", "c14"],
     lean_modules=["ServlinVerif.Props.C06", "ServlinVerif.Props.C06RoundTrip", "ServlinVerif.Props.C06Chunked", "ServlinVerif.Props.C07", "ServlinVerif.Props.CodeTables"],
     audit="Audit/C06.lean",
     rule="write_http_response(scripted writer): every status code 100..999 with rotating content types; 1200 (8000) random responses: all "
@@ -288,7 +288,7 @@ PROPS["C06"] = dict(
          "1..n bytes per call with interleaved Pending. The wire is parsed by the strict independent parser Spec/RespParser. "
          "Non-trivial = at least one extra field or a non-empty body.",
     nontrivial=lambda tag, args, obs: (args[2] != "" or len(args[3]) > 2) if tag == "c06" else args[0] != "",
-    klass=lambda tag, args, obs: ("c06:body=%s:%s" % (args[3][:1], (obs.split(" r=")[1].split(" ")[0] if " r=" in obs else obs[:10]))) if tag == "c06" else "c07",
+    klass=lambda tag, args, obs: ("c06:body=%s:%s" % (args[3][:1], (obs.split(" r=")[1].split(" ")[0] if " r=" in obs else obs[:10]))) if tag == "c06" else ("c07" if tag == "c07" else "c14:header-list-ops"),
     explanation="write_http_response modelled (head construction, duplicate guards, sized body via take(len), chunked body via C07's model, "
                 "writer failing at an offset). Theorems: C06_dup_refused (a colliding or second framing field => zero bytes written), "
                 "C06_head_shape (automatic fields and exactly one framing field, never both), C06_sized_body (Content-Length = bytes sent), "
@@ -320,7 +320,7 @@ PROPS["C08"] = dict(
          "truncated to {0,1,half,len-1}, exact, longer, and deleted before open; the reference serialisation is produced by the same code "
          "with an intact source and a writer that never fails. Non-trivial = the failure point lies inside the serialisation.",
     nontrivial=lambda tag, args, obs: "err:" in obs or tag == "c08s",
-    klass=lambda tag, args, obs: ("c08:body=%s:%s" % (args[3][:1], (obs.split(" r=")[1].split(" ")[0] if " r=" in obs else obs[:10]))) if tag == "c08" else ("c08s:stall=%ss" % args[0] if tag == "c08s" else "c08c:" + args[1].split(";")[1].split(":")[2][:4]),
+    klass=lambda tag, args, obs: ("c08:body=%s:%s" % (args[3][:1], (obs.split(" r=")[1].split(" ")[0] if " r=" in obs else obs[:10]))) if tag == "c08" else ("c08s:stall=%ss" % args[0] if tag == "c08s" else "c08c:" + ([o for o in args[1].split(";") if o.startswith("wr:")] or ["wr:0:?"])[0].split(":")[2][:4]),
     explanation="C08_prefix: for every response and failure offset k the bytes that reached the writer are exactly the first k bytes of the "
                 "intended serialisation and the result is Disconnected; C08_source_fault: a body source that is shorter than declared, "
                 "unreadable or missing yields a prefix of the serialisation with the intact source and an error result. The connection-level "
@@ -483,7 +483,7 @@ PROPS["C10"] = dict(
 )
 
 PROPS["C11"] = dict(
-    suites=["c11", "c11c"],
+    suites=["c11", "c11c", "c07"],
     lean_modules=["ServlinVerif.Props.C11", "ServlinVerif.Props.C07", "ServlinVerif.Props.C11Format"],
     audit="Audit/C11.lean",
     rule="c11c: the checked constructor Event::custom on 19 hand-picked types x 3 data and on every type of up to 4 (5) symbols over {a, SP, CR, LF, ':', e-acute} "
@@ -495,7 +495,7 @@ PROPS["C11"] = dict(
          "random programs of 3..14 steps; multi-threaded stress with 1..4 sender threads x {10, 200} events. Non-trivial = at least one event "
          "was accepted.",
     nontrivial=lambda tag, args, obs: "wire= " not in obs,
-    klass=lambda tag, args, obs: (tag + ":" + obs[:3]) if tag == "c11c" else tag + ":done=" + obs.rsplit("done=", 1)[-1],
+    klass=lambda tag, args, obs: (tag + ":" + obs[:3]) if tag == "c11c" else ("c07:chunk-encoder" if tag == "c07" else tag + ":done=" + obs.rsplit("done=", 1)[-1]),
     explanation="Channel + encoder modelled as a transition system over {send, clone, disconnect, drop, poll}; C11_invariant (induction over "
                 "arbitrary op sequences): delivered ++ queued = accepted in order, queue <= 50, wire = one chunk per delivered event (+ "
                 "terminator iff ended), ended only when every sender is gone; C11_never_blocks; C11_ends_when_all_gone. Format: the "
